@@ -305,3 +305,48 @@ pub fn n_threads() -> usize {
                 .unwrap_or(4)
         })
 }
+
+static JAILED: std::sync::atomic::AtomicBool = std::sync::atomic::AtomicBool::new(false);
+
+pub fn jailed() -> bool {
+    JAILED.load(Ordering::SeqCst)
+}
+
+/// Confine the whole process to a fresh scratch directory (chroot). Everything an engine creates,
+/// and everything a filestore under test can reach through a hostile name, is then inside that
+/// directory. Returns the jail's path as seen from outside. Needs CAP_SYS_CHROOT.
+pub fn enter_jail(name: &str) -> Result<String, String> {
+    let base = if std::path::Path::new("/dev/shm").is_dir() {
+        "/dev/shm".to_string()
+    } else {
+        std::env::var("TMPDIR").unwrap_or_else(|_| "/tmp".into())
+    };
+    let d = format!("{}/cfdp-verif-{}-{}", base, std::process::id(), name);
+    let deep = format!("{}/work/0/1/2/3/4/5/6/7/8/9", d);
+    std::fs::create_dir_all(&deep).map_err(|e| format!("create jail: {}", e))?;
+    std::fs::create_dir_all(format!("{}/tmp", d)).map_err(|e| format!("create jail tmp: {}", e))?;
+    std::fs::create_dir_all(format!("{}/s", d)).map_err(|e| format!("create jail s: {}", e))?;
+    std::os::unix::fs::chroot(&d).map_err(|e| format!("chroot({}): {}", d, e))?;
+    std::env::set_current_dir("/work/0/1/2/3/4/5/6/7/8/9").map_err(|e| format!("chdir: {}", e))?;
+    std::env::set_var("TMPDIR", "/tmp");
+    JAILED.store(true, Ordering::SeqCst);
+    Ok(d)
+}
+
+/// Remove everything inside the jail (the directory itself is removed by the driver).
+pub fn clean_jail() {
+    if jailed() {
+        for d in ["/s", "/tmp", "/work"] {
+            let _ = std::fs::remove_dir_all(d);
+        }
+    }
+}
+
+/// A fresh scratch directory (inside the jail); the caller removes it.
+pub fn scratch(name: &str) -> String {
+    assert!(jailed(), "scratch directories are only handed out inside the jail");
+    static N: AtomicU64 = AtomicU64::new(0);
+    let d = format!("/s/{}-{}", name, N.fetch_add(1, Ordering::SeqCst));
+    std::fs::create_dir_all(&d).expect("create scratch dir");
+    d
+}
